@@ -7,7 +7,7 @@
    - FlushTransparent: a flush changes no answer;
    - RestartTransparent: a clean stop + restart comes back at the same height with the same digest;
    - the schedule itself is a behaviour of Node (add only when up and by one, restart only when down).
-   Events: init | ref | add | flush | stop | restart | pool. *)
+   Events: init | ref | add | skip | flush | stop | restart | pool. *)
 EXTENDS TraceIO, FiniteSets
 
 VARIABLES l, refd, up, hgt
@@ -35,6 +35,10 @@ Step ==
               /\ Report(l, NameIf(e.h = hgt[e.r] + 1, "AddByOne")
                            \cup NameIf(Known(e.h) /\ e.digest = refd[e.h], "Reference"),
                         [ev |-> e, ref |-> IF Known(e.h) THEN refd[e.h] ELSE <<>>])
+         [] e.event = "skip" ->   \* long-chain worlds: a stretch of empty blocks added without observation
+              /\ hgt' = [hgt EXCEPT ![e.r] = e.h]
+              /\ UNCHANGED <<refd, up>>
+              /\ Report(l, NameIf(e.h >= hgt[e.r], "AddForward"), [ev |-> e])
          [] e.event = "flush" ->
               /\ UNCHANGED <<refd, up, hgt>>
               /\ Report(l, NameIf(e.h = hgt[e.r], "FlushKeepsHeight")
